@@ -205,7 +205,22 @@ func (s *c11stream) ReassemblyComplete(msgs []*auparse.AuditMessage) {
 	}
 }
 
-func (s *c11stream) EventsLost(int) {}
+// EventsLost is a Stream callback like the other one: a Stream that re-enters does so from here, too (Maintain: a
+// consumer that reacts to a loss by having the buffer looked at).
+func (s *c11stream) EventsLost(int) {
+	s.mu.Lock()
+	re := s.reenter != "" && s.depth == 0 && s.r != nil
+	if re {
+		s.depth++
+	}
+	s.mu.Unlock()
+	if re {
+		_ = s.r.Maintain()
+		s.mu.Lock()
+		s.depth--
+		s.mu.Unlock()
+	}
+}
 
 type c11result struct {
 	violation string
